@@ -103,3 +103,22 @@ package ast
 //@   requires [this] this != nil
 //@   ensures [value] result == ite(has(this.idMap, id), this.idMap[id], -1)
 //@   assigns nothing
+//@
+//@ # C01 (pattern priority): whether an id is a string literal of the syntax part
+//@ func (*LexPart).StringLitTokDef
+//@   prop C01
+//@   requires [this] this != nil
+//@   ensures [lookup] result == ite(has(this.stringLitToks, id), this.stringLitToks[id], nil)
+//@   assigns nothing
+//@ func (*LexTokDef).RegDef
+//@   prop C01
+//@   ensures [value] result == false
+//@   assigns nothing
+//@ func (*LexIgnoredTokDef).RegDef
+//@   prop C01
+//@   ensures [value] result == false
+//@   assigns nothing
+//@ func (*LexRegDef).RegDef
+//@   prop C01
+//@   ensures [value] result == true
+//@   assigns nothing
